@@ -3,6 +3,8 @@ package props
 import (
 	"sort"
 
+	"github.com/zerx-lab/wordZero/pkg/document"
+
 	"verif/foreign"
 	"verif/inspect"
 	"verif/sim"
@@ -87,7 +89,7 @@ func (c13) Gen(r *sim.Rand, c *sim.Case, tier string) {
 		}
 		ops = append(defs, rest...)
 	}
-	if r.Chance(0.3) && Wild { // interfering document (registries are shared: C07's finding)
+	if r.Chance(0.3) { // interfering document: the registries are shared (C07's finding), id closure must hold all the same
 		g2 := world.NewGen(r.Fork())
 		g2.Fam = world.FBody | world.FList | world.FNote
 		ops = interleave(r, ops, sprinkleSaves(r, g2.DocOps(1, r.Range(2, 8)), 1, 5, 0.2, 0))
@@ -115,6 +117,10 @@ func (c13) Exec(c *sim.Case, env *Env) []sim.Violation {
 			return o
 		}
 		return "fresh"
+	}
+	builtin := map[string]bool{}
+	for _, st := range document.New().GetStyleManager().GetAllStyles() {
+		builtin[st.StyleID] = true
 	}
 	obs := &histObserver{}
 	obs.after = func(w *world.World, op sim.Op, ds *world.Doc, o *world.Obs) {
@@ -154,7 +160,10 @@ func (c13) Exec(c *sim.Case, env *Env) []sim.Violation {
 			if op.K == "p.format" || (op.K == "t.style" && id == "") {
 				id = op.Str(1)
 			}
-			if id != "" && !tableTemplate.MatchString(id) && ds.D != nil && !ds.D.GetStyleManager().StyleExists(id) {
+			// judged by the model, not by asking the library: an id is the caller's to use if it is
+			// one of the library's own styles or was created (and not removed) through the style API
+			_, created := m.added[ds.Slot][id]
+			if id != "" && !tableTemplate.MatchString(id) && !builtin[id] && !created {
 				if m.exempt[ds.Slot] == nil {
 					m.exempt[ds.Slot] = map[string]bool{}
 				}
